@@ -83,7 +83,13 @@ def outcome(thunk):
 
 
 def sym_array(c: Ctx, name, shape, kind='V', dtype=None):
-    """Array with arbitrary contents: element = uninterpreted function of the index."""
+    """Array with arbitrary contents: element = uninterpreted function of the index (memory layout unknown)."""
+    r = _sym_array(c, name, shape, kind, dtype)
+    r.order = None
+    return r
+
+
+def _sym_array(c: Ctx, name, shape, kind='V', dtype=None):
     nd = len(shape)
     if kind == 'V':
         f = c.fresh_fn(name, *([z3.IntSort()] * nd + [core.VSort]))
